@@ -1,4 +1,5 @@
 #!/bin/sh
+export SQV_EVIDENCE_DIR=/tmp/sqv_mutant_evidence  # never overwrite the committed evidence with a mutant run
 # usage: confirm_seed.sh <worktree name under /tmp/seedwt> <seed id>
 # 1. confirms in the scratch worktree: builds, 24 tests pass, demo fails with the change and passes without it
 # 2. copies patch/demo/meta to /verif/seeded/<id>/
